@@ -416,6 +416,29 @@ func c09Structural(r *core.R) {
 		d.Override = map[string]string{"Index": "[0 " + huge + "]"}
 		cases = append(cases, cs{"/Index [0 " + huge + "] with default limits", d.BytesXRefStream(true), func(l *model.ResourceLimits) {}, true, "default", 0})
 	}
+	// /Index with several subsections, each within MaxXRefEntries, their sum beyond it
+	for _, km := range [][2]int{{3, size}, {200, 50000}, {2, size}} {
+		k, m := km[0], km[1]
+		var sb strings.Builder
+		sb.WriteString("[")
+		for i := 0; i < k; i++ {
+			fmt.Fprintf(&sb, "0 %d ", m)
+		}
+		sb.WriteString("]")
+		d := mk(20)
+		d.Override = map[string]string{"Index": sb.String()}
+		cases = append(cases, cs{fmt.Sprintf("/Index of %d subsections of %d entries each with MaxXRefEntries %d", k, m, m), d.BytesXRefStream(true), func(l *model.ResourceLimits) { l.MaxXRefEntries = m }, true, "MaxXRefEntries", 0})
+		// disjoint subsections
+		sb.Reset()
+		sb.WriteString("[")
+		for i := 0; i < k; i++ {
+			fmt.Fprintf(&sb, "%d %d ", i*m, m)
+		}
+		sb.WriteString("]")
+		d = mk(20)
+		d.Override = map[string]string{"Index": sb.String()}
+		cases = append(cases, cs{fmt.Sprintf("/Index of %d disjoint subsections of %d entries each with MaxXRefEntries %d", k, m, m), d.BytesXRefStream(true), func(l *model.ResourceLimits) { l.MaxXRefEntries = m }, true, "MaxXRefEntries", 0})
+	}
 	// /First against MaxObjectStreamFirst
 	{
 		d := mk(20)
